@@ -344,4 +344,64 @@ func c04(x *Ctx) {
 		}
 	}
 	c.Min(rFloor, 8)
+
+	// ---- the client's rate is what the merge starts from and what is written down ---------------------------------
+	const rBase = "C04.merge-from-client-rate"
+	if mf := x.P.Func("collect", "", "mergeTraceAndSpanSampleRates"); mf != nil && mf.Blocks != nil && len(mf.Params) >= 1 {
+		spRate := func(v ssa.Value) bool {
+			return loadsField(v, func(fr eng.FieldRef) bool { return fr.Name == "SampleRate" && fr.Struct != nil && fr.Struct.Obj().Name() == "Event" })
+		}
+		origKey, _ := x.constStr(rBase, "types", "MetaRefineryOriginalSampleRate")
+		// (a) with a nonzero client rate the original rate is recorded on every path, from the client's rate
+		c.Examined++
+		zero := int64(0)
+		as := &eng.Assume{Bool: func(v ssa.Value) eng.Tri {
+			return eng.EvalRel(v, []eng.RelFact{{A: spRate, BConst: &zero, Rel: eng.GT}})
+		}}
+		r := eng.Explore(eng.Query{Fn: mf, Assume: as, Classify: func(in ssa.Instruction, _ eng.Facts) eng.Event {
+			if k, cl, ok := payloadSetKey(in); ok && k == origKey {
+				if _, d := eng.Derives(eng.CallArgs(cl)[1], spRate, eng.FlowOpts{}); d {
+					return eng.EvSink
+				}
+			}
+			return eng.EvNone
+		}})
+		bad := false
+		for _, e := range r.Exits {
+			if _, isRet := e.Instr.(*ssa.Return); isRet && e.Sinks == 0 {
+				bad = true
+			}
+		}
+		c.Decide(!bad, rBase, "merge/original-recorded", x.PosOf(mf.Pos()), "nonzero client rate ⇒ recorded as the original rate on every path",
+			"with a nonzero client sample rate a path through the merge does not record it as meta.refinery.original_sample_rate (e.g. because the span already carries that field): the original rate Honeycomb sees is a stale value")
+		// (b) every rate the merge writes is computed from the client's rate and the trace rate only
+		eng.Instrs(mf, func(in ssa.Instruction) {
+			st, ok := in.(*ssa.Store)
+			if !ok {
+				return
+			}
+			fr, _, ok := eng.FieldRefOf(st.Addr)
+			if !ok || fr.Name != "SampleRate" {
+				return
+			}
+			c.Examined++
+			badLeaf := ""
+			for _, l := range leaves(st.Val, nil) {
+				switch y := l.(type) {
+				case *ssa.Const, *ssa.Parameter:
+				case *ssa.UnOp:
+					if !spRate(y) {
+						badLeaf = y.String()
+						if fr2, _, ok := eng.LoadedField(y); ok {
+							badLeaf = "field " + fr2.Name
+						}
+					}
+				default:
+					badLeaf = l.String()
+				}
+			}
+			c.Decide(badLeaf == "", rBase, "merge/rate-inputs", x.Pos(in), "the forwarded rate is computed from the span's own rate and the trace rate",
+				"the rate written to the span is computed from "+badLeaf+" instead of the span's own sample rate and the trace rate: a span that already carries rate metadata (from an upstream Refinery) is forwarded with a rate that is not client rate × trace rate")
+		})
+	}
 }
